@@ -176,12 +176,14 @@ CHECKS["C18"] = dict(
          "never below the positive floor; below the cut-off the Nusselt number is the laminar value, above it the "
          "correlation of Re and Pr formed at the clipped temperature; Re is linear in velocity; if the correlation is "
          "non-decreasing in Re the coefficient is non-decreasing in velocity in the turbulent regime.  Tied to "
-         "thermalfluid.py by evaluating all shipped variants and random polynomial fluids against the model and an "
-         "independent evaluation.",
+         "thermalfluid.py twice: a translator regenerates the window, property, Reynolds / Prandtl, selection and floor "
+         "expressions and the constructor defaults from the source on every run and they are proved equal to the model's "
+         "definitions; and all shipped variants and random polynomial fluids (low and high laminar cut-offs, velocities around "
+         "the cut-off) are evaluated against the model and an independent evaluation.",
     note="partial: the Gnielinski value (log, real powers) is validated against an independent float evaluation; its monotonicity "
          "in Re is proved over the reals for Pr >= 1, Re >= 1000 (C18_gnielinski_monotone_in_reynolds, Coquelicot + Interval) and "
          "validated on a 400x60 grid for Pr in [0.1, 1).  JAX polynomial evaluation trusted.",
-    technique="Coq proof (order lemmas over Q) + evaluation correspondence by vm_compute + dense sweeps",
+    technique="Coq proof (order lemmas over Q, real analysis for the Gnielinski monotonicity) + laws regenerated from the source + evaluation correspondence by vm_compute + dense sweeps",
     design="4/C18")
 
 CHECKS["C20"] = dict(
